@@ -228,6 +228,78 @@ def esc_ref_lines(ctx, lines):
     return ["jt unesc " + o.split()[1] if o.startswith("ok x") else "" for o in impl]
 
 
+def gen_model_value(rng, depth):
+    """values inside the domain of Model.JsonEncode: null, bool, int64/uint64, bigint-tagged big numbers, strings of every escape class
+    (valid UTF-8), arrays, objects"""
+    r = rng.random()
+    if depth <= 0 or r < 0.3:
+        q = rng.random()
+        if q < 0.1:
+            return None
+        if q < 0.2:
+            return rng.random() < 0.5
+        if q < 0.45:
+            return rng.choice([v for v in jt.INTS if -2 ** 63 <= v <= 2 ** 64 - 1]) if rng.random() < 0.5 else rng.randint(-10 ** 6, 10 ** 6)
+        if q < 0.52:
+            return Tagged("bigint", rng.choice(BIGINTS))
+        if rng.random() < 0.5:
+            cps = [rng.choice([rng.randrange(0x20), 0x22, 0x5C, 0x2F, 0x7F, 0x80, 0x7FF, 0x800, 0xD7FF, 0xE000, 0xFFFD, 0xFFFF, 0x10000, 0x10FFFF, 0x20, 0x09,
+                               rng.randrange(0x20, 0x7F), rng.randrange(0x80, 0xD800), rng.randrange(0xE000, 0x110000)]) for _ in range(rng.randint(0, 12))]
+            return "".join(chr(c) for c in cps).encode("utf-8")
+        if rng.random() < 0.2:
+            return bytes(rng.choice(b"abcdefghij /\\\"") for _ in range(rng.randint(20, 90)))      # long enough to cross small line limits
+        return rng.choice(jt.STRS)
+    if r < 0.65:
+        return [gen_model_value(rng, depth - 1) for _ in range(rng.choice([0, 1, 2, 3, 4, 9]))]
+    keys = jt.KEYS + [b"\xef\xbf\xbf", b"\x01", b"z", b"\xc3\xa9", b"cafe", b"caf\xc3\xa9", b"a much longer member name than the others"]
+    ks = rng.sample(keys, rng.randint(0, 5))
+    return Obj([(k, gen_model_value(rng, depth - 1)) for k in ks])
+
+
+def gen_model_opts(rng):
+    """every layout option of basic_json_encoder; escape_all_non_ascii stays off (outside the encoder model)"""
+    if rng.random() < 0.15:
+        return "p=0" + ("" if rng.random() < 0.5 else ",es=%d" % rng.getrandbits(1))
+    if rng.random() < 0.15:
+        return "p=1"                                   # all defaults
+    parts = ["p=1"]
+    pick = lambda name, vals: parts.append("%s=%s" % (name, rng.choice(vals))) if rng.random() < 0.5 else None
+    pick("is", [0, 1, 2, 3, 4, 8])
+    pick("ic", [32, 9])
+    pick("sc", [0, 1, 2, 3])
+    pick("sm", [0, 1, 2, 3])
+    pick("po", [0, 1])
+    pick("pa", [0, 1])
+    for k in ("rl", "oo", "ao", "oa", "aa"):
+        pick(k, [0, 1, 2])
+    pick("ll", [0, 1, 5, 10, 20, 40, 80, 120])
+    pick("nl", ["0a", "0d0a", "0d", ""])
+    pick("es", [0, 1])
+    return ",".join(parts)
+
+
+def gen_model_lines(rng, n):
+    ls = []
+    for _ in range(n):
+        v = gen_model_value(rng, rng.randint(0, 5))
+        kind = "j" if rng.random() < 0.5 else "o"
+        if kind == "j":
+            v = wire.sort_keys(v)
+        ls.append("jt dump %s %s %s" % (kind, gen_model_opts(rng), wire.render(v)))
+    return ls
+
+
+def model_tie(line, impl, model):
+    """byte-for-byte: the text dump/dump_pretty wrote and the compact text, against Model.JsonEncode.pretty / compactS"""
+    if not model.startswith("ok x"):
+        return False                                   # every generated line is inside the model's domain
+    parts = parse_impl(impl)
+    if not impl.startswith("ok x") or len(parts) < 5:
+        return False
+    mt, mc = model.split()[1:3]
+    return parts[0].split()[1] == mt and parts[4] == mc
+
+
 def nontrivial(line, impl):
     return line if ("[" in line or "{" in line) and "s" in line else None
 
@@ -241,6 +313,10 @@ def streams(ctx, rng, scale):
     st = ctx.correspond("dump-roundtrip", HARNESS, ls, oracle, nontrivial, want_model=False)
     if "_impl" in st:
         spec_judge(ctx, ls, st["_impl"])
+    lm = gen_model_lines(rng, 3000 * scale)
+    st = ctx.correspond("encoder-model", HARNESS, lm, oracle, nontrivial, compare=model_tie)
+    if "_impl" in st:
+        spec_judge(ctx, lm, st["_impl"])
 
 
 def run(ctx):
@@ -250,7 +326,11 @@ def run(ctx):
                        "member names mixing ASCII and non-ASCII) x option records drawn from the product of indent size/char, spaces_around_colon/comma, "
                        "padding, five line-split options x three kinds, line_length_limit, new_line_chars, escape_all_non_ascii, escape_solidus, compact/"
                        "pretty. Judged: parse(dump v) = v, dump(parse(dump v)) = dump v bytewise, pretty = compact + white space, dump/operator<</"
-                       "encode_json agree, and the text is strict RFC 8259 denoting v per the Lean reference parser. non-trivial = has a container and a string")
+                       "encode_json agree, and the text is strict RFC 8259 denoting v per the Lean reference parser. Stream encoder-model: values inside the domain of "
+                       "Model.JsonEncode (null/bool/int64/uint64/bigint-tagged big numbers/valid UTF-8 strings of every escape class/arrays of 0-9 elements/objects, "
+                       "json and ojson, depth <= 5) x option records over every layout option of basic_json_encoder (escape_solidus too; escape_all_non_ascii off); "
+                       "the text of dump/dump_pretty and the compact text must equal Model.JsonEncode.pretty/compactS byte for byte, and are judged by the same "
+                       "oracles. non-trivial = has a container and a string")
     rng = vlib.rng_for(ctx.seed, "c01")
     streams(ctx, rng, 1 if ctx.tier == "quick" else 12)
 
